@@ -84,9 +84,12 @@ class ClassWorld:
                         continue
                     try:
                         self.ev.steps = 0
-                        memo[(id(fn), pname)] = self.ev.eval(d, self.genv)
+                        v = self.ev.eval(d, self.genv)
                     except (Undecided, Exception):
                         continue
+                    if isinstance(v, Tag) or callable(v):
+                        continue  # an object this world has not built yet (it stays opaque at creation): bound on first use instead
+                    memo[(id(fn), pname)] = v
 
     # -- class structure -------------------------------------------------------------------
     def _bases(self, name: str) -> List[str]:
